@@ -582,6 +582,11 @@ def run(repo, res, tier):
                     res.note("out of scope (not a mutator the property names): %s.%s leaves %s stale" % (u.name, mn, cache.name))
 
     _current(repo, res, caches, scope)
+    # removing lanelets through the scenario (single, list, with lanelets it does not hold): evaluated on a small
+    # network, the index invariant of C06 afterwards
+    from .c06ev import scenario_remove_rule
+
+    scenario_remove_rule(repo, res, "CACHE-FRESH")
     _history(repo, res)
     return {"caches": [{"cache": c.name, "kind": c.kind, "deps": sorted(c.deps), "why": c.why} for c in caches], "unresolved_calls": eng.eff.unresolved[:50]}
 
